@@ -143,3 +143,32 @@ def run(tier, seed):
                         "containsRegion is only required to be sound, not complete"],
         "wall_s": round(time.time() - started, 2), "violations": nviol})
     return status
+
+
+def replay(payload):
+    import harness.rig  # noqa: F401
+    event = payload["event"]
+    frame = tuple(event["frame"])
+
+    def raw(spec):
+        if spec["t"] == "rect":
+            return ("rect", spec["a"], spec["b"], spec["c"], spec["d"])
+        return ("circ", spec["a"], spec["b"], spec["c"], 0)
+    if event["k"] == "pt":
+        reg = raw(event["reg"])
+        variants = []
+        if reg[0] == "rect":
+            for alt in (("rect", reg[3], reg[4], reg[1], reg[2]), ("rect", reg[1], reg[4], reg[3], reg[2]),
+                        ("rect", reg[3], reg[2], reg[1], reg[4])):
+                variants.append(bitmap(make(alt, frame), frame))
+        new = {"k": "pt", "reg": event["reg"], "ins": bitmap(make(reg, frame), frame),
+               "variants": variants, "frame": list(frame)}
+    else:
+        res = bool(make(raw(event["outer"]), frame).containsRegion(make(raw(event["inner"]), frame)))
+        new = {"k": "cr", "outer": event["outer"], "inner": event["inner"], "res": res,
+               "frame": list(frame)}
+    verdicts = common.validate_traces("TraceGeo", "TraceGeo.cfg",
+                                      [{"id": 1, "pmax": PMAX, "ev": [new]}], "replay")
+    verdict = verdicts[0]["v"]["C17"]
+    print("replay verdict for C17: %s" % json.dumps(verdict))
+    return 0 if verdict["c"] == "ok" else 1
